@@ -41,14 +41,22 @@ def helper_tokens(g: Grammar, level: str) -> Dict[str, str]:
     return out
 
 
-def dispatch_table(fn: ast.FunctionDef) -> Optional[Dict[str, str]]:
-    """The ``{"helper": "_op_"}[x.data]`` literal in a level method."""
+def dispatch_table(fn: ast.FunctionDef, mod: Any = None, cls: Optional[ast.ClassDef] = None) -> Optional[Dict[str, str]]:
+    """The ``{"helper": "_op_"}[x.data]`` table of a level method - written in place, or kept in a local,
+    a class attribute or a module constant (constant evaluation)."""
+    from .consteval import try_const
+
     for n in ast.walk(fn):
-        if isinstance(n, ast.Subscript) and isinstance(strip_cast(n.value), ast.Dict):
+        if isinstance(n, ast.Subscript) and isinstance(n.ctx, ast.Load) and ast.unparse(n.slice).endswith(".data"):
             d = strip_cast(n.value)
-            if ast.unparse(n.slice).endswith(".data") and all(isinstance(k, ast.Constant) for k in d.keys) and all(
-                    isinstance(v, ast.Constant) for v in d.values):
-                return {k.value: v.value for k, v in zip(d.keys, d.values)}  # type: ignore[union-attr]
+            if isinstance(d, ast.Dict):
+                if all(isinstance(k, ast.Constant) for k in d.keys) and all(isinstance(v, ast.Constant) for v in d.values):
+                    return {k.value: v.value for k, v in zip(d.keys, d.values)}  # type: ignore[union-attr]
+                continue
+            if mod is not None:
+                val = try_const(mod, d, cls, fn)
+                if isinstance(val, dict) and val and all(isinstance(k, str) and isinstance(v, str) for k, v in val.items()):
+                    return dict(val)
     return None
 
 
@@ -103,7 +111,7 @@ def check_chains(repo: Repo, run: Any, rule: str, levels: List[str], engines: Tu
             fn = meths.get(level)
             if fn is None:
                 raise AnchorMissing(f"{cls}.{level}")
-            table = dispatch_table(fn)
+            table = dispatch_table(fn, ev, ev.cls(cls))
             if table is None:
                 run.inconclusive(rule, f"{cls}.{level}", "no literal {helper: op}[x.data] dispatch table")
                 continue
